@@ -20,6 +20,9 @@ From PB Require Import Common Tables FdlTables Telegram Phy TokenRing Params Fdl
 Definition in_visit (k : state_kind) : bool :=
   match k with KUseToken | KAwaitDataResponse => true | _ => false end.
 
+Lemma in_visit_have_token (k : state_kind) : in_visit k = true -> have_token_kind k = true.
+Proof. destruct k; cbn; intros H; try discriminate H; reflexivity. Qed.
+
 (* One item of a station history: an application callback, the end of a poll (time of the poll and
    the station as it is afterwards), the re-creation of the station by set_offline. *)
 Inductive hitem : Type :=
@@ -1980,3 +1983,79 @@ Qed.
 End TelegramTx.
 
 End Apps.
+
+Arguments event A : clear implicits.
+
+(* ------------------------------------------------------------------------------------------ *)
+(* Non-vacuity: a concrete application on a concrete station, run through the model.  The application
+   sends one SRD request to station 5 when first asked and declines afterwards; the station holds the
+   token (UseToken), the hold time is far away.  Four polls: request sent, PHY still busy, short
+   confirmation received, application declines -> the token is passed. *)
+Definition demo_hdr : header := mkHeader 5 2 None None (FcRequest FcbFirst RqSrdLow).
+Definition demo_ops : app_ops nat :=
+  mkAppOps nat
+    (fun a now p hp => match a with
+                       | O => match transmit tx_buffer_size (TxData demo_hdr [1; 2]) with
+                              | Ok r => Ok (1%nat, Some r) | Panic s => Panic s | OutOfFuel => OutOfFuel
+                              end
+                       | S _ => Ok (a, None)
+                       end)
+    (fun a _ _ _ _ => Ok (S a)) (fun a _ _ _ => Ok (S a)).
+Definition demo_params : params :=
+  mkParams 2 default_baudrate default_slot_bits default_token_rotation_bits default_gap_wait_rotations
+           default_highest_station_address default_max_retry_limit default_min_tsdr_bits None.
+Definition demo_start : fdl :=
+  match fdl_new demo_params with
+  | Ok f => mkFdl (f_p f) (f_ring f) ConnOnline (GapWaiting 0) (UseToken 0 None false) (Some 0) 0 0 1000000000 0
+  | _ => mkFdl demo_params (mkRing [] LasValid 2 2 2) ConnOffline (GapWaiting 0) Offline None 0 0 0 0
+  end.
+Definition demo_events : list (event nat) :=
+  [EvPoll nat 100000 (mkPhyIn false []); EvPoll nat 100100 (mkPhyIn true []);
+   EvPoll nat 200000 (mkPhyIn false [229]); EvPoll nat 300000 (mkPhyIn false [])].
+Definition demo_wire : bytes := [104; 5; 5; 104; 5; 2; 108; 1; 2; 118; 22].
+
+Lemma demo_inv : Inv 1 demo_start (cst_of demo_start 0).
+Proof. vm_compute. repeat split. Qed.
+
+Lemma demo_history : exists f apps h,
+  run nat demo_ops demo_start [0%nat] demo_events = Ok (f, apps, h) /\
+  calls_of h = [CallTransmit 0 false (Some (demo_wire, Some 5)); CallReceiveReply 0 5 TShortConf; CallTransmit 0 false None] /\
+  f_state f = PassToken true AttFirst /\ apps = [2%nat].
+Proof.
+  destruct (run nat demo_ops demo_start [0%nat] demo_events) as [[[f apps] h]| |] eqn:E.
+  - exists f, apps, h. split; [reflexivity|].
+    assert (E' : match run nat demo_ops demo_start [0%nat] demo_events with
+                 | Ok (f, apps, h) => (calls_of h, f_state f, apps)
+                 | _ => ([], Offline, [])
+                 end = ([CallTransmit 0 false (Some (demo_wire, Some 5)); CallReceiveReply 0 5 TShortConf; CallTransmit 0 false None],
+                        PassToken true AttFirst, [2%nat])) by (vm_compute; reflexivity).
+    rewrite E in E'. injection E' as -> -> ->. repeat split.
+  - exfalso. assert (E' : is_ok (run nat demo_ops demo_start [0%nat] demo_events) = true) by (vm_compute; reflexivity).
+    rewrite E in E'. discriminate E'.
+  - exfalso. assert (E' : is_ok (run nat demo_ops demo_start [0%nat] demo_events) = true) by (vm_compute; reflexivity).
+    rewrite E in E'. discriminate E'.
+Qed.
+
+(* the acceptors are not trivially true: an unsolicited reply, a reply from the wrong station, a
+   transmit call while a reply is outstanding, and an application asked out of turn are rejected *)
+Lemma contract_rejects_unsolicited_reply :
+  ~ accepts (apre 2 0) (apost 0) (AppIdle, KAwaitDataResponse) [HCall (CallReceiveReply 0 5 TShortConf)].
+Proof. cbn. intros [H _]. destruct (H eq_refl) as [C _]. discriminate C. Qed.
+
+Lemma contract_rejects_foreign_reply :
+  ~ accepts (apre 2 0) (apost 0) (AppWaiting 5, KAwaitDataResponse)
+      [HCall (CallReceiveReply 0 5 (TData (mkHeader 2 7 None None (FcResponse RsSlave StOk)) []))].
+Proof.
+  cbn. intros [H _]. destruct (H eq_refl) as [_ [C|[h [pdu [st [s [E [_ [Hs _]]]]]]]]]; [discriminate C|].
+  injection E as <- <-. cbn in Hs. discriminate Hs.
+Qed.
+
+Lemma contract_rejects_second_request :
+  ~ accepts (apre 2 0) (apost 0) (AppIdle, KUseToken)
+      [HCall (CallTransmit 0 false (Some ([], Some 5))); HCall (CallTransmit 0 false None)].
+Proof. cbn. intros [_ [[C _] _]]. discriminate C. Qed.
+
+Lemma round_robin_rejects_out_of_turn :
+  ~ accepts (rpre 3) (rpost 3) (mkRr KUseToken 0 0)
+      [HCall (CallTransmit 0 false None); HCall (CallTransmit 2 false None)].
+Proof. cbn. intros [_ [[C _] _]]. discriminate C. Qed.
